@@ -301,6 +301,10 @@ pub fn run(cases: &[Value], trace: &mut Trace, seed: u64) {
             let v = from_bits(&step["v"]);
             let rv = from_bits(&step["rv"]);
             let behaviour = step["peer"].as_str().unwrap_or("auto");
+            if behaviour == "gone" {
+                // the peer has gone before the call is made: the request cannot be sent
+                let _ = peer.sock.shutdown(std::net::Shutdown::Both);
+            }
             let (tx, rx) = channel();
             let mut fe2 = fe.clone();
             let (op2, cls2) = (op.clone(), cls.clone());
